@@ -15,6 +15,9 @@ RULE = (
     "poly/bs; each design is built on replicated complete-factorial data with generic numeric columns and its "
     "common matrix compared (rank, span) with the complete-indicator reference matrix.  Non-trivial: the design "
     "has at least one term with a categorical factor together with another factor or term"
+    "  Added: number-like / boolean-like / empty level names; the design's own frame evaluated as new data is "
+    'held to the same rank and span clauses; a design built on a later frame (fewer levels) that the first '
+    'design evaluated as new data. '
 )
 ASSUMPTIONS = [
     "rank decisions by SVD with a gap check (ambiguous cases are counted as undecided, never as violations)",
